@@ -35,4 +35,6 @@ TypeSame == Clause("TypeSame", ~(On /\ Good) \/ (R.type_subbed = R.type_direct /
 ConstraintsSame == Clause("ConstraintsSame", ~(On /\ Good) \/ ConsP(R.cons_subbed) = ConsP(R.cons_direct))
 SymbolicEvaluates == Clause("SymbolicEvaluates", ~(On /\ Good /\ R.affine) \/ SymAt = Scale(R.cden, Direct))
 OriginalUnchanged == Clause("OriginalUnchanged", ~(On /\ Good) \/ R.orig_unchanged)
+\* the substituted model also compares equal to the direct one under the library's own == (no symbolic objects left behind)
+PythonEqual == Clause("PythonEqual", ~(On /\ Good) \/ R.py_equal)
 =============================================================================
